@@ -57,6 +57,42 @@ fn leaves16(v: &Value, out: &mut HashSet<Vec<u8>>) {
     }
 }
 
+/// Differences of neighbouring same-typed numeric components of a vector / tuple / named-tuple value (element-wise,
+/// modulo 2^w): values the observer can compute from ONE stored value.  The number of entries depends on the type only.
+pub fn component_diffs(v: &Value, t: &Type) -> Vec<Vec<u8>> {
+    let comps: Vec<Type> = match t {
+        Type::Vector(n, et) => (0..*n).map(|_| (**et).clone()).collect(),
+        Type::Tuple(ts) => ts.iter().map(|x| (**x).clone()).collect(),
+        Type::NamedTuple(ts) => ts.iter().map(|x| (*x.1).clone()).collect(),
+        _ => return vec![],
+    };
+    let vals = match v.to_vector() {
+        Ok(x) if x.len() == comps.len() => x,
+        _ => return comps.windows(2).filter(|w| w[0] == w[1] && (w[0].is_array() || w[0].is_scalar())).map(|_| vec![254u8]).collect(),
+    };
+    let mut out = vec![];
+    for k in 0..comps.len().saturating_sub(1) {
+        if comps[k] != comps[k + 1] || !(comps[k].is_array() || comps[k].is_scalar()) {
+            continue;
+        }
+        let st = comps[k].get_scalar_type();
+        let w = st.size_in_bits();
+        let (a, b) = (vals[k].to_flattened_array_u128(comps[k].clone()), vals[k + 1].to_flattened_array_u128(comps[k].clone()));
+        match (a, b) {
+            (Ok(a), Ok(b)) => {
+                let mut bytes = vec![];
+                for (x, y) in a.iter().zip(b.iter()) {
+                    let d = if w == 1 { x ^ y } else if w == 128 { x.wrapping_sub(*y) } else { x.wrapping_sub(*y) & ((1u128 << w) - 1) };
+                    bytes.extend_from_slice(&d.to_le_bytes());
+                }
+                out.push(bytes);
+            }
+            _ => out.push(vec![254u8]),
+        }
+    }
+    out
+}
+
 fn is_key_type(t: &Type) -> bool {
     match t {
         Type::Array(sh, st) => sh.len() == 1 && sh[0] == 128 && st.size_in_bits() == 1,
